@@ -1,22 +1,38 @@
 #!/usr/bin/env python3
-"""Function translator, anstyle-parse: crates/anstyle-parse/src/{lib.rs,params.rs,state/mod.rs}
--> coq/Generated/ParserFn.v (C02, C20, C04).
+"""Function translator, anstyle-parse: crates/anstyle-parse/src/{lib.rs,params.rs,state/mod.rs,
+state/definitions.rs} -> coq/Generated/ParserFn.v (C02, C20, C04).
 
-The Rust functions Parser::{advance, process_utf8, perform_state_change, perform_action,
-params, intermediates}, Params::{len, is_empty, is_full, clear, push, extend},
-state_change and state_change_ are TRANSLATED (tools/rs2v) into Gallina over the
-record types of the hand model; Proofs/ParserGen.v proves the translations equal to
-the hand model (Model/Parser.v) the theorems of C02 / C20 / C04 are about.
-Parser::osc_dispatch (unsafe MaybeUninit / pointer casts) and definitions::unpack
-(transmute) are not translatable: they stay hand-modelled and are pinned by token hash."""
+The Rust functions Parser::{new, advance, process_utf8, perform_state_change, perform_action,
+osc_dispatch, params, intermediates}, Params::{len, is_empty, iter, is_full, clear, push, extend,
+into_iter, fmt (Debug)}, ParamsIter::{new, next, size_hint}, AsciiParser::add, Utf8Parser::add,
+VtUtf8Receiver::{codepoint, invalid_sequence}, the default bodies of trait Perform,
+State::try_from, Action::try_from, state_change and state_change_ are TRANSLATED (tools/rs2v)
+into Gallina over the record types of the hand model; the `#[derive(Default)]`s of Params /
+Parser / State / Action / Utf8Parser / AsciiParser are EXPANDED by this plug-in from the struct
+and enum items (every field its type's Default; the `#[default]` variant) into g_*_default.
+Proofs/ParserGen.v and Proofs/ParserGen2.v prove the translations equal to the hand model
+(Model/Parser.v) the theorems of C02 / C20 / C04 are about.  See HACKING.d/parser.md.
+definitions::unpack: `mem::transmute::<u8, State | Action>` is read at value level as the discriminant decoder."""
+import copy
 import os
+import re
 import sys
 
 sys.path.insert(0, os.path.dirname(os.path.abspath(__file__)))
 from rs2v.driver import translate, TranslateError   # noqa: E402
+from rs2v import driver as drv                      # noqa: E402
+from rs2v.emit import Emitter, EmitError            # noqa: E402
+from rs2v.rparser import N, parse_file, find_items, find_fn, parse_macro_args, ParseError   # noqa: E402
+from rs2v.lexer import tokenize, LexError           # noqa: E402
 
 U8, U16, USZ = ("int", "u8"), ("int", "u16"), ("int", "usize")
 STATE, ACTION = ("enum", "State"), ("enum", "Action")
+CHAR = ("int", "char")
+OPT_CHAR = ("opt", CHAR)
+BYTES = ("list", U8)
+OPT_BYTES = ("opt", BYTES)
+RECEIVER = ("struct", "VtUtf8Receiver")
+FMT_RESULT = ("res", ("unit",))
 
 STATES = ["Anywhere", "CsiEntry", "CsiIgnore", "CsiIntermediate", "CsiParam", "DcsEntry", "DcsIgnore", "DcsIntermediate", "DcsParam",
           "DcsPassthrough", "Escape", "EscapeIntermediate", "Ground", "OscString", "SosPmApcString", "Utf8"]
@@ -28,21 +44,303 @@ def m_is_full(em, e, rt, rty, env, k):
     return k("(raw_full c %s)" % rt, ("bool",), env)
 
 
-def sink_osc_dispatch(em, e, env, k):
-    raise NotImplementedError
+def m_raw_push(em, e, rt, rty, env, k):
+    """`self.osc_raw.push(byte)`: Vec::push appends; with the `core` feature the buffer is an ArrayVec, whose push PANICS
+    when the buffer is full (arrayvec: `self.try_push(element).unwrap()`)"""
+    if len(e.args) != 1 or not (e.recv.kind == "field" and e.recv.name == "osc_raw"):
+        raise EmitError("push: only `self.osc_raw.push(byte)` is modelled")
 
+    def k1(t, _ty, env1):
+        return em.bind("(if (cfg_core c) && (raw_full c %s) then None else Some (%s ++ [%s]))" % (rt, rt, t), rty, env1,
+                       lambda x, _t, env2: em.write_place(e.recv, x, env2, lambda env3: k("tt", ("unit",), env3)), hint="pushed")
+    return em.expr(e.args[0], env, k1)
+
+
+m_raw_push.mutates = True
+
+
+# -- CharAccumulator: the utf8parse callback and the dispatch on the type parameter -----------------------
+
+def f_receiver_new(em, e, env, k):
+    """VtUtf8Receiver(&mut c): the receiver IS the borrowed Option<char>; its type remembers which Rust
+    variable it borrows so that the callee's writes land there (as in gen_fn_strip.py, there over a bool)"""
+    if len(e.args) != 1:
+        raise EmitError("VtUtf8Receiver(..): expected 1 argument")
+    a = e.args[0]
+    if not (a.kind == "unary" and a.op == "&mut" and a.e.kind == "path" and len(a.e.segs) == 1):
+        raise EmitError("VtUtf8Receiver(..): expected `&mut <variable>`")
+    name = a.e.segs[0]
+    v = env.get(name)
+    if v is None or v.ty != OPT_CHAR:
+        raise EmitError("VtUtf8Receiver(&mut %s): not an Option<char> variable" % name)
+    return k("tt", ("borrow", name, RECEIVER), env)
+
+
+def m_u8_advance(em, e, rt, rty, env, k):
+    """utf8parse::Parser::advance(&mut receiver, byte): the hand model of the third-party decoder, then the
+    TRANSLATED receiver method its outcome names (the callable of the strip area)"""
+    from gen_fn_strip import m_u8_advance as strip_advance
+    return strip_advance(em, e, rt, rty, env, k)
+
+
+m_u8_advance.mutates = True
+
+CHAR_ADD_SHAPE = {"coq": "g_char_add", "self": "inout", "params": [("in", U8)], "ret": OPT_CHAR, "total": False, "cfg": True}
+
+
+# -- MaybeUninit (Parser::osc_dispatch), value level: a slot is an option -----------------------------------
+
+def f_mu_new(em, e, env, k):
+    """MaybeUninit::new(x): an initialised slot"""
+    if len(e.args) != 1:
+        raise EmitError("MaybeUninit::new: expected 1 argument")
+    return em.expr(e.args[0], env, lambda t, ty, env1: k("(Some %s)" % t, ("opt", ty), env1))
+
+
+def is_ty_path(ty, name):
+    return ty is not None and ty.form == "path" and ty.segs[-1] == name
+
+
+def is_bytes_ref(ty):
+    return (ty is not None and ty.form == "ref" and not ty.mut and ty.inner.form == "slice"
+            and is_ty_path(ty.inner.inner, "u8"))
+
+
+def is_mu_bytes(ty):
+    return is_ty_path(ty, "MaybeUninit") and len(ty.args) == 1 and is_bytes_ref(ty.args[0])
+
+
+def cast_hook(em, e, env, k):
+    """`<&[MaybeUninit<&[u8]>]> as *const [MaybeUninit<&[u8]>] as *const [&[u8]]`: reading the slots as
+    initialised = mu_assume_init_slice (undefined behaviour if one is not: None).  Exactly this pair of casts."""
+    if e.ty.form != "ptr":
+        return None
+    if not (not e.ty.mut and e.ty.inner.form == "slice" and is_bytes_ref(e.ty.inner.inner) and e.e.kind == "cast"
+            and e.e.ty.form == "ptr" and not e.e.ty.mut and e.e.ty.inner.form == "slice" and is_mu_bytes(e.e.ty.inner.inner)):
+        raise EmitError("pointer cast other than `as *const [MaybeUninit<&[u8]>] as *const [&[u8]]`")
+
+    def k1(t, ty, env1):
+        if ty != ("list", OPT_BYTES):
+            raise EmitError("pointer cast of a value of type %r" % (ty,))
+        return em.bind("mu_assume_init_slice %s" % t, ("list", BYTES), env1, k, hint="init")
+    return em.expr(e.e.e, env, k1)
+
+
+def mentions(node, name):
+    """does the path `name` occur in the AST below node"""
+    hit = []
+
+    def walk(x):
+        if isinstance(x, N):
+            if x.kind == "path" and x.segs == [name]:
+                hit.append(1)
+            for v in x.__dict__.values():
+                walk(v)
+        elif isinstance(x, (list, tuple)):
+            for y in x:
+                walk(y)
+    walk(node)
+    return bool(hit)
+
+
+def binds_name(node, name):
+    hit = []
+
+    def walk(x):
+        if isinstance(x, N):
+            if x.kind == "pident" and x.name == name:
+                hit.append(1)
+            for v in x.__dict__.values():
+                walk(v)
+        elif isinstance(x, (list, tuple)):
+            for y in x:
+                walk(y)
+    walk(node)
+    return bool(hit)
+
+
+def desugar_osc_dispatch(fn):
+    """The two MaybeUninit idioms of Parser::osc_dispatch that are not expressions of the subset, rewritten on
+    the AST after an exact shape check (anything else is a GEN-ERROR):
+      let mut V: [MaybeUninit<&[u8]>; LEN] = unsafe { MaybeUninit::uninit().assume_init() };
+          -> let mut V = (mu_uninit_array LEN)                      (LEN slots, none initialised)
+      for (I, S) in V.iter_mut().enumerate().take(E) { .. *S = X; .. }
+          -> for (I, S) in mu_take_enum(V, E) { .. V[I] = X; .. }   (S is `&mut V[I]`: iter_mut + enumerate)
+    The pointer casts are the vocabulary's cast_hook, MaybeUninit::new its `fns` entry."""
+    fn = copy.deepcopy(fn)
+    body = fn.body
+    if body.kind != "block" or len(body.stmts) != 2 or body.tail is None:
+        raise TranslateError("Parser::osc_dispatch: unexpected shape (expected the slot array, the fill loop, the unsafe block)")
+    s0 = body.stmts[0]
+    ok = (s0.kind == "let" and s0.pat.kind == "pident" and s0.pat.mut and s0.els is None and s0.ty is not None
+          and s0.ty.form == "array" and is_mu_bytes(s0.ty.inner) and s0.ty.len.kind == "path" and len(s0.ty.len.segs) == 1
+          and s0.ty.len.segs[0] in VOCAB["consts"] and s0.init is not None and s0.init.kind == "unsafe"
+          and not s0.init.block.stmts and s0.init.block.tail is not None)
+    if ok:
+        t = s0.init.block.tail
+        ok = (t.kind == "mcall" and t.name == "assume_init" and not t.args and t.recv.kind == "call" and not t.recv.args
+              and t.recv.f.kind == "path" and t.recv.f.segs[-2:] == ["MaybeUninit", "uninit"])
+    if not ok:
+        raise TranslateError("Parser::osc_dispatch: the slot array is not `let mut v: [MaybeUninit<&[u8]>; CONST] = "
+                             "unsafe { MaybeUninit::uninit().assume_init() }`")
+    arr = s0.pat.name
+    s0.init = N("rawterm", term="(mu_uninit_array %s)" % VOCAB["consts"][s0.ty.len.segs[0]][0], ty=("list", OPT_BYTES))
+    s0.ty = None
+    s1 = body.stmts[1]
+    f = s1.e if s1.kind == "expr" else None
+    ok = (f is not None and f.kind == "for" and f.pat.kind == "ptuple" and len(f.pat.elems) == 2
+          and all(p.kind == "pident" and not p.mut and not p.by_ref for p in f.pat.elems))
+    if ok:
+        it = f.iter
+        ok = (it.kind == "mcall" and it.name == "take" and len(it.args) == 1
+              and it.recv.kind == "mcall" and it.recv.name == "enumerate" and not it.recv.args
+              and it.recv.recv.kind == "mcall" and it.recv.recv.name == "iter_mut" and not it.recv.recv.args
+              and it.recv.recv.recv.kind == "path" and it.recv.recv.recv.segs == [arr])
+    if not ok:
+        raise TranslateError("Parser::osc_dispatch: the fill loop is not `for (i, slot) in %s.iter_mut().enumerate().take(n)`" % arr)
+    idx, slot = f.pat.elems[0].name, f.pat.elems[1].name
+    if mentions(f.iter.args[0], arr) or binds_name(f.body, idx) or binds_name(f.body, slot) or binds_name(f.body, arr):
+        raise TranslateError("Parser::osc_dispatch: the fill loop rebinds its variables")
+
+    def walk(x):
+        if isinstance(x, N):
+            if x.kind == "assign" and x.lhs.kind == "unary" and x.lhs.op == "*" and x.lhs.e.kind == "path" and x.lhs.e.segs == [slot]:
+                if x.op != "=":
+                    raise TranslateError("Parser::osc_dispatch: `*%s %s ..`" % (slot, x.op))
+                x.lhs = N("index", e=N("path", segs=[arr]), idx=N("path", segs=[idx]))
+            for v in list(x.__dict__.values()):
+                walk(v)
+        elif isinstance(x, (list, tuple)):
+            for y in x:
+                walk(y)
+    walk(f.body)
+    if mentions(f.body, slot):
+        raise TranslateError("Parser::osc_dispatch: the slot `%s` is used other than as `*%s = ..`" % (slot, slot))
+    f.iter = N("call", f=N("path", segs=["mu_take_enum"]), args=[N("path", segs=[arr]), f.iter.args[0]])
+    return fn
+
+
+# -- core::fmt (Params as Debug): `f: &mut Formatter` is the text written so far, as in gen_fn_style.py --------
+
+def write_parts(e):
+    args = parse_macro_args(e.toks)
+    if len(args) != 2 or args[0].kind != "path" or len(args[0].segs) != 1 or args[1].kind != "str":
+        raise TranslateError("write!: expected write!(<formatter variable>, \"literal\")")
+    fmt = bytes(args[1].val).decode("utf-8")
+    if "{" in fmt or "}" in fmt:
+        raise TranslateError("write!: format string %r is not a literal text" % fmt)
+    return args[0], args[1]
+
+
+def mac_write(em, e, env, k):
+    dest, lit = write_parts(e)
+    v = env.get(dest.segs[0])
+    if v is None or v.ty != BYTES:
+        raise TranslateError("write!: %s is not the formatter" % dest.segs[0])
+
+    def k1(t, ty, env1):
+        cur = env1.get(dest.segs[0]).coq
+        return em.write_place(dest, "(pfmt_write_str %s %s)" % (cur, t), env1, lambda env2: k("(inl tt)", FMT_RESULT, env2))
+    return em.expr(lit, env, k1)
+
+
+def macro_writes(em, x):
+    if x.name.split("::")[-1] == "write":
+        return [write_parts(x)[0].segs[0]]
+    return []
+
+
+def m_u16_fmt(em, e, rt, rty, env, k):
+    """<u16 as Debug>::fmt(f) with a flag-less formatter: the decimal digits are appended"""
+    if len(e.args) != 1 or e.args[0].kind != "path" or len(e.args[0].segs) != 1:
+        raise EmitError("<u16>.fmt(..): expected the formatter variable")
+    dest = e.args[0]
+    v = env.get(dest.segs[0])
+    if v is None or v.ty != BYTES or rty != U16:
+        raise EmitError("<%r>.fmt(%s): not a u16 written to the formatter" % (rty, dest.segs[0]))
+    return em.write_place(dest, "(pfmt_u16 %s %s)" % (v.coq, rt), env, lambda env2: k("(inl tt)", FMT_RESULT, env2))
+
+
+m_u16_fmt.mutates = True
+
+
+def m_params_iter_enumerate(em, e, rt, rty, env, k):
+    """`self.iter().enumerate()` in a `for`: the items of the translated ParamsIter::next, numbered"""
+    return em.bind("iter_drain (g_params_iter_next c) (S (S (N.to_nat MAX_PARAMS))) %s" % rt, None, env,
+                   lambda x, _t, env1: k("(penumerate %s)" % x, ("list", ("tuple", (USZ, ("list", U16)))), env1), hint="items")
+
+
+def m_list_iter(em, e, rt, rty, env, k):
+    return k(rt, rty, env)
+
+
+def m_list_enumerate(em, e, rt, rty, env, k):
+    return k("(penumerate %s)" % rt, ("list", ("tuple", (USZ, rty[1]))), env)
+
+
+# -- TryFrom<u8> for State / Action ------------------------------------------------------------------------
+
+def m_list_get(em, e, rt, rty, env, k):
+    """<[T]>::get(i): None out of bounds"""
+    if len(e.args) != 1:
+        raise EmitError("get: expected 1 argument")
+    return em.expr(e.args[0], env, lambda t, _ty, env1: k("(aget %s %s)" % (rt, t), ("opt", rty[1]), env1))
+
+
+def m_opt_ok_or(em, e, rt, rty, env, k):
+    if len(e.args) != 1:
+        raise EmitError("ok_or: expected 1 argument")
+    return em.expr(e.args[0], env, lambda t, _ty, env1: k("(opt_ok_or %s %s)" % (rt, t), ("res", rty[1]), env1))
+
+
+def f_transmute(em, e, env, k):
+    """mem::transmute::<u8, State>(x) / ::<u8, Action>(x), value level: the variant of the fieldless #[repr(u8)] enum
+    whose discriminant is x (state_of_disc / action_of_disc of Generated/Table.v, read from the `= n` of the enum);
+    no such variant = undefined behaviour: None"""
+    ta = getattr(e.f, "targs", None)
+    tab = {"<u8,State>": ("state_of_disc", STATE), "<u8,Action>": ("action_of_disc", ACTION)}
+    if ta not in tab or len(e.args) != 1:
+        raise EmitError("transmute%s: only ::<u8, State> and ::<u8, Action> are modelled" % (ta or ""))
+    fn, ty = tab[ta]
+
+    def k1(t, aty, env1):
+        if aty != U8:
+            raise EmitError("transmute%s of a value of type %r" % (ta, aty))
+        return em.bind("%s %s" % (fn, t), ty, env1, k, hint="tm")
+    return em.expr(e.args[0], env, k1)
+
+
+def check_repr_u8(items, name):
+    ens = find_items(items, "enum", name)
+    if len(ens) != 1 or not any(a.replace(" ", "") == "#[repr(u8)]" for a in ens[0].attrs or []):
+        raise TranslateError("enum %s is not #[repr(u8)] (transmute::<u8, %s> is read as the discriminant decoder)" % (name, name))
+    if any(v[1] is not None for v in ens[0].variants):
+        raise TranslateError("enum %s has a variant with data" % name)
+
+
+STRUCT_PARAMS = {"coq": "params", "var": "q", "ctor": ("mkParams", ["subparams", "params", "current_subparams", "len"]), "fields": {
+    "subparams": ("subparams", "set_subparams", ("list", U8)),
+    "params": ("pvals", "set_pvals", ("list", U16)),
+    "current_subparams": ("current_subparams", "set_cursub", U8),
+    "len": ("plen", "set_plen", USZ),
+}}
+STRUCT_PARAMS_ITER = {"coq": "params_it", "var": "it", "ctor": ("mkPIt", ["params", "index"]), "fields": {
+    "params": ("pit_params", "set_pit_params", ("struct", "Params")),
+    "index": ("pit_index", "set_pit_index", USZ),
+}}
+PARSER_ORDER = ["state", "intermediates", "intermediate_idx", "params", "param", "osc_raw", "osc_params", "osc_num_params", "ignoring", "utf8_parser"]
 
 VOCAB = {
     "config_param": ("c", "cfg"),
     "reserved": ["c"],
-    "features": {"core": "(cfg_core c)"},
+    "features": {"core": "(cfg_core c)", "utf8": "(utf8_on c)"},
     "type_alias": {"C": ("coq", "u8parser")},
     "enums": {
         "State": {"coq": "state", "eqb": "state_eqb", "disc": "state_disc", "variants": {s: s for s in STATES}},
         "Action": {"coq": "action", "eqb": "action_eqb", "disc": "action_disc", "variants": {a: "A" + a for a in ACTIONS}},
     },
     "structs": {
-        "Parser": {"coq": "parser", "var": "p", "fields": {
+        "Parser": {"coq": "parser", "var": "p", "ctor": ("mkParser", PARSER_ORDER), "fields": {
             "state": ("pstate", "set_state", STATE),
             "intermediates": ("intermediates", "set_intermediates", ("list", U8)),
             "intermediate_idx": ("intermediate_idx", "set_intermediate_idx", USZ),
@@ -54,12 +352,7 @@ VOCAB = {
             "ignoring": ("ignoring", "set_ignoring", ("bool",)),
             "utf8_parser": ("utf8_parser", "set_utf8", ("coq", "u8parser")),
         }},
-        "Params": {"coq": "params", "var": "q", "fields": {
-            "subparams": ("subparams", "set_subparams", ("list", U8)),
-            "params": ("pvals", "set_pvals", ("list", U16)),
-            "current_subparams": ("current_subparams", "set_cursub", U8),
-            "len": ("plen", "set_plen", USZ),
-        }},
+        "Params": STRUCT_PARAMS,
     },
     "consts": {
         "MAX_PARAMS": ("MAX_PARAMS", USZ),
@@ -68,37 +361,167 @@ VOCAB = {
         "STATE_CHANGES": ("state_changes", ("list", ("list", U8))),
     },
     "param_types": {"performer": ("sink", "Perform")},
+    # the events a recording performer logs; a `&Params` argument is logged as what iterating it yields
+    # (g_params_groups: the TRANSLATED ParamsIter::next, drained)
     "sinks": {"Perform": {"coq": "(list event)", "methods": {
         "print": ("EPrint", [None]),
         "execute": ("EExecute", [None]),
-        "hook": ("EHook", [("params_groups", True), None, None, None]),
+        "hook": ("EHook", [("g_params_groups c", True), None, None, None]),
         "put": ("EPut", [None]),
         "unhook": ("EUnhook", []),
-        "csi_dispatch": ("ECsi", [("params_groups", True), None, None, None]),
+        "csi_dispatch": ("ECsi", [("g_params_groups c", True), None, None, None]),
         "esc_dispatch": ("EEsc", [None, None, None]),
+        "osc_dispatch": ("EOsc", [None, None]),
     }}},
     "fns": {
         "unpack": {"coq": "unpack", "self": None, "params": [("in", U8)], "ret": ("tuple", (STATE, ACTION)), "total": False, "cfg": False},
-        "Parser::osc_dispatch": {"coq": "osc_dispatch_acc", "self": "in", "params": [("inout", ("sink", "Perform")), ("in", U8)],
-                                 "ret": ("unit",), "total": False, "cfg": False},
     },
     "methods": {
         ("list", "is_full"): m_is_full,
-        ("coq", "add"): {"coq": "char_add_m", "self": "inout", "params": [("in", U8)], "ret": ("opt", ("int", "char")), "total": False, "cfg": True},
+        ("list", "push"): m_raw_push,
     },
     # functions that are not translatable (unsafe code): modelled by hand, pinned by token hash
     "opaque": {},
 }
 
-HEADER = "(* GENERATED by tools/gen_fn_parser.py (tools/rs2v) from crates/anstyle-parse/src/{lib.rs,params.rs,state/mod.rs} -- do not edit *)"
+HEADER = "(* GENERATED by tools/gen_fn_parser.py (tools/rs2v) from crates/anstyle-parse/src/{lib.rs,params.rs,state/mod.rs,state/definitions.rs} -- do not edit *)"
 REQ = """From Coq Require Import NArith List Bool.
 From AV Require Import Generated.Table Spec.Vt Model.Base Model.Imp Model.Utf8parse Model.Parser.
 Import ListNotations.
 Local Open Scope N_scope.
 Local Open Scope bool_scope."""
 
-OPAQUE_LIB = {"Parser::osc_dispatch": "@LIB@"}
-OPAQUE_DEFS = {"unpack": "@DEFS@"}
+
+# -- #[derive(Default)] ----------------------------------------------------------------------------------
+
+def has_derive(item, what):
+    for a in item.attrs or []:
+        m = re.match(r"#\[derive\((.*)\)\]$", a.replace(" ", ""))
+        if m and what in m.group(1).split(","):
+            return True
+    return False
+
+
+def default_of(ty, named, who):
+    """the Gallina term of <T as Default>::default() for a field type (AST)"""
+    f = ty.form
+    if f == "array":
+        n = ty.len
+        if n.kind == "path" and len(n.segs) == 1 and n.segs[0] in VOCAB["consts"]:
+            ln = VOCAB["consts"][n.segs[0]][0]
+        elif n.kind == "int":
+            ln = str(n.val)
+        else:
+            raise TranslateError("%s: array length is neither a literal nor a known constant" % who)
+        return "(repeat %s (N.to_nat %s))" % (default_of(ty.inner, named, who), ln)
+    if f == "tuple" and ty.elems:
+        return "(" + ", ".join(default_of(t, named, who) for t in ty.elems) + ")"
+    if f == "path":
+        name = ty.segs[-1]
+        if name in ("u8", "u16", "u32", "u64", "usize"):
+            return "0"
+        if name == "bool":
+            return "false"
+        if name in ("Vec", "ArrayVec"):
+            return "[]"
+        if name in named:
+            return named[name]
+    raise TranslateError("%s: no Default known for a field of this type (%s)" % (who, getattr(ty, "segs", f)))
+
+
+def derive_default_struct(items, name, ctor, order, named, coq_ty, coq_name):
+    sts = find_items(items, "struct", name)
+    if len(sts) != 1:
+        raise TranslateError("struct %s: %d definitions" % (name, len(sts)))
+    st = sts[0]
+    if not has_derive(st, "Default"):
+        raise TranslateError("struct %s no longer derives Default (a hand-written impl must be translated)" % name)
+    vals = {}
+    for fname, fty, _attrs in st.fields:
+        t = default_of(fty, named, "%s.%s" % (name, fname))
+        if vals.setdefault(fname, t) != t:
+            raise TranslateError("struct %s.%s: the cfg-dependent declarations have different defaults" % (name, fname))
+    if set(vals) != set(order):
+        raise TranslateError("struct %s: fields %s, the vocabulary models %s" % (name, sorted(vals), sorted(order)))
+    body = "(%s %s)" % (ctor, " ".join(vals[f] for f in order)) if order else ctor
+    return "(* #[derive(Default)] struct %s: every field its type's Default *)\nDefinition %s (c : cfg) : %s :=\n  %s.\n" % (
+        name, coq_name, coq_ty, body)
+
+
+def derive_default_enum(items, name, variants, coq_ty, coq_name):
+    ens = find_items(items, "enum", name)
+    if len(ens) != 1:
+        raise TranslateError("enum %s: %d definitions" % (name, len(ens)))
+    en = ens[0]
+    if not has_derive(en, "Default"):
+        raise TranslateError("enum %s no longer derives Default" % name)
+    dv = [v[0] for v in en.variants if any(a.replace(" ", "") == "#[default]" for a in (v[3] or []))]
+    if len(dv) != 1 or dv[0] not in variants:
+        raise TranslateError("enum %s: expected exactly one #[default] variant" % name)
+    return "(* #[derive(Default)] enum %s: the #[default] variant *)\nDefinition %s (c : cfg) : %s :=\n  %s.\n" % (
+        name, coq_name, coq_ty, variants[dv[0]])
+
+
+def const_array(items, name, enum, variants, coq_ty, coq_name):
+    """const NAME: [Enum; n] = [Enum::A, ..]  ->  Definition coq_name : list enum"""
+    cs = find_items(items, "const", name)
+    if len(cs) != 1:
+        raise TranslateError("const %s: %d definitions" % (name, len(cs)))
+    c = cs[0]
+    ok = (c.ty is not None and c.ty.form == "array" and is_ty_path(c.ty.inner, enum) and c.ty.len.kind == "int"
+          and c.val is not None and c.val.kind == "array")
+    elems = getattr(c.val, "elems", None) if ok else None
+    if elems is None or len(elems) != c.ty.len.val:
+        raise TranslateError("const %s is not `[%s; n] = [..n elements..]`" % (name, enum))
+    out = []
+    for x in elems:
+        if not (x.kind == "path" and len(x.segs) == 2 and x.segs[0] == enum and x.segs[1] in variants):
+            raise TranslateError("const %s: element that is not a variant of %s" % (name, enum))
+        out.append(variants[x.segs[1]])
+    return "(* const %s *)\nDefinition %s : list %s :=\n  [%s].\n" % (name, coq_name, coq_ty, "; ".join(out))
+
+
+def char_accumulator_alias(lib):
+    """`#[cfg(feature = "utf8")] pub type DefaultCharAccumulator = Utf8Parser;` and, under
+    `#[cfg(not(feature = "utf8"))]`, `= AsciiParser;` (type items are skipped by the parser: token scan);
+    `struct Parser<C = DefaultCharAccumulator>`"""
+    toks = [t for t in tokenize(lib) if t.kind != "eof"]
+    found = []
+    for i, t in enumerate(toks):
+        if t.kind == "ident" and t.text == "type" and toks[i + 1].text == "DefaultCharAccumulator":
+            if not (toks[i + 2].text == "=" and toks[i + 4].text == ";"):
+                raise TranslateError("type DefaultCharAccumulator: unexpected shape")
+            j = i - 1
+            while j >= 0 and toks[j].kind != "attr":
+                if toks[j].text not in ("pub",):
+                    raise TranslateError("type DefaultCharAccumulator: unexpected shape")
+                j -= 1
+            found.append((toks[j].text.replace(" ", ""), toks[i + 3].text))
+    want = [('#[cfg(feature="utf8")]', "Utf8Parser"), ('#[cfg(not(feature="utf8"))]', "AsciiParser")]
+    if sorted(found) != sorted(want):
+        raise TranslateError("type DefaultCharAccumulator: %r, expected Utf8Parser with the utf8 feature and AsciiParser without" % (found,))
+    flat = " ".join(t.text for t in toks)
+    if "struct Parser < C = DefaultCharAccumulator >" not in flat:
+        raise TranslateError("struct Parser<C = DefaultCharAccumulator> not found")
+
+
+def merged(a, b):
+    d = dict(a)
+    d.update(b)
+    return d
+
+
+def emit_one(em, fn, struct, coq_name, src, key):
+    try:
+        text, shape = em.emit_fn(fn, struct, coq_name)
+    except EmitError as e:
+        raise TranslateError("%s: %s" % (key, e))
+    drv.REGISTRY.append(("translated", drv._sha(src), fn, coq_name))
+    em.fn_shapes[key] = shape
+    return "(* %s *)\n%s\n" % (key, text)
+
+
+PERFORM_METHODS = ["print", "execute", "hook", "put", "unhook", "osc_dispatch", "csi_dispatch", "esc_dispatch"]
 
 
 def register(generators, gm):
@@ -108,10 +531,17 @@ def register(generators, gm):
             par = gm.read("crates/anstyle-parse/src/params.rs")
             smod = gm.read("crates/anstyle-parse/src/state/mod.rs")
             defs = gm.read("crates/anstyle-parse/src/state/definitions.rs")
+            try:
+                lib_items, par_items, defs_items = parse_file(lib), parse_file(par), parse_file(defs)
+            except (ParseError, LexError) as e:
+                raise TranslateError("parse error: %s" % e)
             out = []
             shapes = {}
+            # ---- params.rs -----------------------------------------------------------------------------
             v = dict(VOCAB)
-            v["structs"] = {"Params": VOCAB["structs"]["Params"]}
+            v["structs"] = {"Params": STRUCT_PARAMS, "ParamsIter": STRUCT_PARAMS_ITER}
+            v["type_alias"] = dict(VOCAB["type_alias"], IntoIter=("struct", "ParamsIter"), Item=("list", U16))
+            v["no_transparent"] = ("iter",)
             out.append(translate(par, v, [
                 ("len", "Params", "g_params_len", {}),
                 ("is_empty", "Params", "g_params_is_empty", {}),
@@ -119,19 +549,125 @@ def register(generators, gm):
                 ("clear", "Params", "g_params_clear", {}),
                 ("push", "Params", "g_params_push", {}),
                 ("extend", "Params", "g_params_extend", {}),
+                ("new", "ParamsIter", "g_params_iter_new", {}),
+                ("iter", "Params", "g_params_iter", {}),
+                ("into_iter", "Params", "g_params_into_iter", {"trait": "IntoIterator"}),
+                ("next", "ParamsIter", "g_params_iter_next", {"trait": "Iterator"}),
+                ("size_hint", "ParamsIter", "g_params_iter_size_hint", {"trait": "Iterator"}),
             ], HEADER, REQ, shapes))
+            out.append(derive_default_struct(par_items, "Params", "mkParams", STRUCT_PARAMS["ctor"][1], {}, "params", "g_params_default"))
+            out.append("(* what a performer sees when it iterates a `&Params` (`for group in params`): IntoIterator::into_iter, then\n"
+                       "   ParamsIter::next until None.  Every group but a degenerate empty one consumes a value, hence the fuel *)\n"
+                       "Definition g_params_groups (c : cfg) (q : params) : option (list (list N)) :=\n"
+                       "  iter_drain (g_params_iter_next c) (S (S (N.to_nat MAX_PARAMS))) (g_params_into_iter c q).\n")
+            vd = dict(v)
+            vd.update({
+                "result": {"err": "unit"},
+                "for_ret_state": True,
+                "type_alias": dict(v["type_alias"], Formatter=BYTES, Result=FMT_RESULT, str=BYTES),
+                "macros": {"write": mac_write},
+                "macro_writes": macro_writes,
+                "methods": merged(VOCAB["methods"], {("ParamsIter", "enumerate"): m_params_iter_enumerate, ("list", "iter"): m_list_iter,
+                                                    ("list", "enumerate"): m_list_enumerate, ("int", "fmt"): m_u16_fmt}),
+            })
+            out.append(translate(par, vd, [("fmt", "Params", "g_params_debug_fmt", {"trait": "Debug"})], "", "", shapes))
+            # ---- state/definitions.rs, state/mod.rs ----------------------------------------------------
             v2 = dict(VOCAB)
             v2["structs"] = {}
             v2["opaque"] = {}
+            sv, av = VOCAB["enums"]["State"]["variants"], VOCAB["enums"]["Action"]["variants"]
+            out.append(derive_default_enum(defs_items, "State", sv, "state", "g_state_default"))
+            out.append(derive_default_enum(defs_items, "Action", av, "action", "g_action_default"))
+            out.append(const_array(defs_items, "STATES", "State", sv, "state", "g_STATES"))
+            out.append(const_array(defs_items, "ACTIONS", "Action", av, "action", "g_ACTIONS"))
+            check_repr_u8(defs_items, "State")
+            check_repr_u8(defs_items, "Action")
+            vt = dict(v2)
+            vt.update({
+                "result": {"err": "N"},
+                "consts": dict(VOCAB["consts"], STATES=("g_STATES", ("list", STATE)), ACTIONS=("g_ACTIONS", ("list", ACTION))),
+                "methods": {("list", "get"): m_list_get, ("opt", "ok_or"): m_opt_ok_or},
+                "fns": {"mem::transmute": f_transmute},
+            })
+            out.append(translate(defs, vt, [
+                ("try_from", "State", "g_state_try_from", {"trait": "TryFrom"}),
+                ("try_from", "Action", "g_action_try_from", {"trait": "TryFrom"}),
+                ("unpack", None, "g_unpack", {}),
+            ], "", "", shapes))
+            v2["fns"] = {}     # state_change calls the TRANSLATED unpack
             out.append(translate(smod, v2, [
                 ("state_change_", None, "g_state_change_", {}),
                 ("state_change", None, "g_state_change", {}),
             ], "", "", shapes))
+            # ---- lib.rs: the character accumulators ----------------------------------------------------
+            char_accumulator_alias(lib)
+            va = dict(VOCAB)
+            va["structs"] = {
+                # struct Utf8Parser { utf8_parser: utf8::Parser } == the decoder itself
+                "Utf8Parser": {"coq": "u8parser", "var": "u", "fields": {"utf8_parser": ("pu_inner", "set_pu_inner", ("coq", "u8parser"))}},
+                # pub struct AsciiParser; (no field: represented in the decoder's type, see Model/Parser.v)
+                "AsciiParser": {"coq": "u8parser", "var": "u", "fields": {}},
+                # struct VtUtf8Receiver<'a>(&'a mut Option<char>) == the slot it borrows
+                "VtUtf8Receiver": {"coq": "(option N)", "var": "rcv", "fields": {"0": ("prcv_slot", "set_prcv_slot", OPT_CHAR)}},
+            }
+            va["type_alias"] = dict(VOCAB["type_alias"], Parser=("coq", "u8parser"))
+            va["fns"] = dict(VOCAB["fns"], VtUtf8Receiver=f_receiver_new)
+            va["methods"] = merged(VOCAB["methods"], {("coq", "advance"): m_u8_advance})
+            va["local_types"] = {"Utf8Parser::add": {"c": OPT_CHAR}}
+            # the two callbacks take no configuration parameter: m_u8_advance applies them to the borrowed slot directly
+            vr = {k: x for k, x in va.items() if k not in ("config_param", "features")}
+            out.append(translate(lib, vr, [
+                ("codepoint", "VtUtf8Receiver", "g_receiver_codepoint", {"trait": "Receiver"}),
+                ("invalid_sequence", "VtUtf8Receiver", "g_receiver_invalid_sequence", {"trait": "Receiver"}),
+            ], "", "", shapes))
+            out.append(translate(lib, va, [
+                ("add", "Utf8Parser", "g_utf8_parser_add", {"trait": "CharAccumulator", "monadic": True}),
+                ("add", "AsciiParser", "g_ascii_parser_add", {"trait": "CharAccumulator", "monadic": True}),
+            ], "", "", shapes))
+            out.append("(* C = DefaultCharAccumulator: Utf8Parser with the `utf8` feature, AsciiParser without *)\n"
+                       "Definition g_char_add (c : cfg) (u : u8parser) (byte : N) : option (u8parser * (option N)) :=\n"
+                       "  if (utf8_on c) then g_utf8_parser_add c u byte else g_ascii_parser_add c u byte.\n")
+            for nm, want_fields in (("Utf8Parser", ["utf8_parser"]), ("AsciiParser", [])):
+                sts = find_items(lib_items, "struct", nm)
+                if len(sts) != 1 or not has_derive(sts[0], "Default") or [f[0] for f in sts[0].fields] != want_fields:
+                    raise TranslateError("struct %s: expected #[derive(Default)] with the fields %r" % (nm, want_fields))
+            if not is_ty_path(find_items(lib_items, "struct", "Utf8Parser")[0].fields[0][1], "Parser"):
+                raise TranslateError("Utf8Parser.utf8_parser is not a utf8::Parser")
+            out.append("(* #[derive(Default)] struct Utf8Parser { utf8_parser: utf8::Parser } (utf8::Parser::default(): third party, u8_new);\n"
+                       "   #[derive(Default)] struct AsciiParser; *)\n"
+                       "Definition g_utf8_parser_default (c : cfg) : u8parser := u8_new.\n"
+                       "Definition g_ascii_parser_default (c : cfg) : u8parser := ascii_parser_unit.\n"
+                       "Definition g_char_acc_default (c : cfg) : u8parser :=\n"
+                       "  if (utf8_on c) then g_utf8_parser_default c else g_ascii_parser_default c.\n")
+            # ---- lib.rs: the parser --------------------------------------------------------------------
+            out.append(derive_default_struct(lib_items, "Parser", "mkParser", PARSER_ORDER,
+                                             {"State": "(g_state_default c)", "Params": "(g_params_default c)", "C": "(g_char_acc_default c)"},
+                                             "parser", "g_parser_default"))
             v3 = dict(VOCAB)
             v3["structs"] = dict(VOCAB["structs"])
-            v3["structs"]["Params"] = dict(VOCAB["structs"]["Params"], check=False)
-            v3["opaque"] = {"Parser::osc_dispatch": PIN_OSC_DISPATCH}
+            v3["structs"]["Params"] = dict(STRUCT_PARAMS, check=False)
+            v3["fns"] = merged(VOCAB["fns"], {
+                "Parser::default": {"coq": "g_parser_default", "self": None, "params": [], "ret": ("struct", "Parser"), "total": True, "cfg": True},
+                "MaybeUninit::new": f_mu_new,
+                "mu_take_enum": {"coq": "mu_take_enum", "self": None, "params": [("in", ("list", OPT_BYTES)), ("in", USZ)],
+                                 "ret": ("list", ("tuple", (USZ, OPT_BYTES))), "total": True, "cfg": False},
+            })
+            v3["methods"] = merged(VOCAB["methods"], {("coq", "add"): CHAR_ADD_SHAPE})
+            v3["cast_hook"] = cast_hook
+            em = Emitter(v3, lib_items)
+            em.fn_shapes = shapes
+            drv.check_struct(lib_items, "Parser", v3["structs"]["Parser"]["fields"], em)
+            real = find_fn(lib_items, "osc_dispatch", "Parser")
+            osc = desugar_osc_dispatch(real)
+            try:
+                text, shape = em.emit_fn(osc, "Parser", "g_osc_dispatch")
+            except EmitError as e:
+                raise TranslateError("Parser::osc_dispatch: %s" % e)
+            drv.REGISTRY.append(("translated", drv._sha(lib), real, "g_osc_dispatch"))
+            shapes["Parser::osc_dispatch"] = shape
+            out.append("(* Parser::osc_dispatch (MaybeUninit slots read at value level, see desugar_osc_dispatch) *)\n%s\n" % text)
             out.append(translate(lib, v3, [
+                ("new", "Parser", "g_parser_new", {}),
                 ("params", "Parser", "g_params", {}),
                 ("intermediates", "Parser", "g_intermediates", {}),
                 ("process_utf8", "Parser", "g_process_utf8", {}),
@@ -139,15 +675,27 @@ def register(generators, gm):
                 ("perform_state_change", "Parser", "g_perform_state_change", {}),
                 ("advance", "Parser", "g_advance", {}),
             ], "", "", shapes))
-            from rs2v.driver import token_hash, fn_source
-            h = token_hash(fn_source(defs, "unpack"))
-            if h != PIN_UNPACK:
-                raise TranslateError("definitions::unpack changed (token hash %s, pinned %s): it is modelled by hand (transmute)" % (h, PIN_UNPACK))
+            # ---- lib.rs: trait Perform, the default bodies (Self is abstract: the config parameter T) ----
+            tr = find_items(lib_items, "trait", "Perform")
+            if len(tr) != 1 or [f.name for f in tr[0].items if f.kind == "fn"] != PERFORM_METHODS:
+                raise TranslateError("trait Perform: expected exactly the callbacks %r" % PERFORM_METHODS)
+            vp = {"config_param": ("T", "Type"), "reserved": ["T"],
+                  "structs": {"Perform": {"coq": "T", "var": "pf", "fields": {}, "check": False},
+                              "Params": dict(STRUCT_PARAMS, check=False)},
+                  "opaque": {}}
+            emp = Emitter(vp, lib_items)
+            out.append("(* trait Perform: the default bodies (what a performer that does not override a callback does) *)")
+            for f in tr[0].items:
+                if f.kind == "fn":
+                    if f.body is None:
+                        raise TranslateError("trait Perform: %s has no default body any more" % f.name)
+                    out.append(emit_one(emp, f, "Perform", "g_perform_default_" + f.name, lib, "Perform::" + f.name))
             return "\n".join(out) + "\n"
         except TranslateError as e:
             raise gm.GenError(str(e))
     generators["ParserFn"] = gen
 
 
-PIN_OSC_DISPATCH = "33ddab5d0850b704"
+# token hash of definitions::unpack: no longer checked here (unpack is translated, g_unpack); still used by
+# tools/gen_fn_strip.py, whose copy of state_change calls the hand model
 PIN_UNPACK = "09d93a3576ae6881"
